@@ -585,10 +585,15 @@ func e2eMode(fam string, pickCol func(r *rand.Rand) Col, statePatterns bool) fun
 					}
 					evs = append(evs, ev)
 				}
+				// half of the scenarios: table maps as a MySQL 8.0 master writes them, with the SIGNEDNESS field appended
+				var tail []byte
+				if i%2 == 0 {
+					tail = mysql8Tail(t)
+				}
 				if nev == 1 {
-					f.Units = append(f.Units, &Unit{U: "autorow", Evs: []*Ev{{K: "tablemap", TS: ts, Tbl: t}, evs[0]}})
+					f.Units = append(f.Units, &Unit{U: "autorow", Evs: []*Ev{{K: "tablemap", TS: ts, Tbl: t, Tail: tail}, evs[0]}})
 				} else {
-					all := []*Ev{{K: "query", TS: ts, Cat: "begin", DB: "dv", SQL: "BEGIN"}, {K: "tablemap", TS: ts, Tbl: t}}
+					all := []*Ev{{K: "query", TS: ts, Cat: "begin", DB: "dv", SQL: "BEGIN"}, {K: "tablemap", TS: ts, Tbl: t, Tail: tail}}
 					all = append(append(all, evs...), &Ev{K: "xid", TS: ts})
 					f.Units = append(f.Units, &Unit{U: "txxid", Evs: all})
 				}
@@ -615,8 +620,64 @@ func emptyValue(c *Col) []byte {
 	return genCell(r, c, 0)
 }
 
+// schemaChangeScenarios: the signedness of a table's columns changes while the stream runs. The first transaction is decoded
+// with what the mapper said when the table was first announced; then the application learns of the change (the mapper's
+// answer changes while the handler has that transaction), the ALTER statement passes by - as a DDL the library delivers,
+// or hidden behind a leading comment as online schema-change tools log it, which the library ignores like any statement it
+// has no kind for - and the table is announced again under a new id: its rows are read as the mapper says NOW.
+func schemaChangeScenarios(e *Env, fam string, firstID int) {
+	cfgs := allCfgs()
+	for i := 0; i < e.N(6, 60); i++ {
+		cfg := cfgs[e.R.Intn(len(cfgs))]
+		l := &Log{Cfg: cfg}
+		ncols := 1 + e.R.Intn(4)
+		v1 := &Table{ID: 300, DB: "dv", Name: "tsc"}
+		v2 := &Table{ID: 301 + uint64(e.R.Intn(5)), DB: "dv", Name: "tsc"}
+		for c := 0; c < ncols; c++ {
+			col := colInt(pickS(e.R, "tiny", "short", "int24", "long", "longlong"), e.R.Intn(2) == 0)
+			col.Name, col.Nullable = "c"+itoa(c), true
+			v1.Cols = append(v1.Cols, col)
+			col.Uns = !col.Uns
+			v2.Cols = append(v2.Cols, col)
+		}
+		rowsOf := func(t *Table) *Ev {
+			ev := &Ev{K: "write", TS: 1600000000, Tbl: t}
+			none := make([]Cell, ncols)
+			for c := range none {
+				none[c] = Cell{St: "absent"}
+			}
+			for rw := 0; rw < 2; rw++ {
+				img := make([]Cell, ncols)
+				for c := range img {
+					b := genCell(e.R, &t.Cols[c], 8)
+					b[len(b)-1] |= 0x80 // the top bit set: the two readings differ
+					img[c] = Cell{St: "val", Bytes: b}
+				}
+				ev.Rows = append(ev.Rows, RowPair{B: none, A: img})
+			}
+			return ev
+		}
+		f := &LogFile{Name: "mysql-bin.000001"}
+		l.Files = []*LogFile{f}
+		f.Units = append(f.Units, &Unit{U: "autorow", Evs: []*Ev{{K: "tablemap", TS: 1600000000, Tbl: v1}, rowsOf(v1)}})
+		alter := "ALTER TABLE tsc MODIFY c0 INT UNSIGNED"
+		switch i % 3 {
+		case 0:
+			f.Units = append(f.Units, &Unit{U: "ddl", Evs: []*Ev{{K: "query", TS: 1600000000, Cat: "ddl", DB: "dv", SQL: alter}}})
+		case 1:
+			f.Units = append(f.Units, &Unit{U: "ign", Evs: []*Ev{{K: "query", TS: 1600000000, Cat: "unknown", DB: "dv", SQL: "/* online-ddl */ " + alter}}})
+		}
+		f.Units = append(f.Units, &Unit{U: "autorow", Evs: []*Ev{{K: "tablemap", TS: 1600000000, Tbl: v2}, rowsOf(v2)}})
+		f.Units = append(f.Units, &Unit{U: "autorow", Evs: []*Ev{{K: "tablemap", TS: 1600000000, Tbl: v2}, rowsOf(v2)}})
+		l.Layout()
+		RunStreamScenario(e.Rec, &StreamScenario{ID: firstID + i, Fam: fam, Log: l, Start: l.Boundaries()[0], ServerID: 3,
+			Attempts: []AttemptPlan{defaultAttempt()}, Note: "schema-change", MapperTables: map[string]*Table{"dv.tsc": v1},
+			MapperAfter: map[int]map[string]*Table{0: {"dv.tsc": v2}}})
+	}
+}
+
 func init() {
-	modes["c10s"] = e2eMode("c10", func(r *rand.Rand) Col {
+	c10e2e := e2eMode("c10", func(r *rand.Rand) Col {
 		switch r.Intn(10) {
 		case 0:
 			return colFloat()
@@ -633,6 +694,10 @@ func init() {
 		}
 		return colInt(pickS(r, "tiny", "short", "int24", "long", "longlong"), r.Intn(2) == 0)
 	}, false)
+	modes["c10s"] = func(e *Env) {
+		c10e2e(e)
+		schemaChangeScenarios(e, "c10", 10001)
+	}
 	c11Boundary := [][2]int{{65, 0}, {65, 30}, {64, 0}, {65, 1}, {1, 0}, {1, 1}, {30, 30}, {9, 0}, {10, 0}, {9, 9}, {10, 9}, {18, 0}, {18, 9},
 		{19, 9}, {19, 10}, {27, 9}, {28, 10}, {36, 18}, {38, 30}, {56, 0}, {57, 1}, {63, 30}, {2, 1}, {45, 9}}
 	c11Calls := 0
